@@ -17,6 +17,7 @@ import (
 	"fmt"
 	"github.com/fxamacker/cbor"
 	"github.com/privacybydesign/gabi/big"
+	"strings"
 	"testing"
 	"time"
 
@@ -387,7 +388,7 @@ func TestVerifC09Assembled(t *testing.T) {
 	r := vkit.Start(t, "C09", "assembled-updates", 120*time.Second, 600*time.Second)
 	defer r.Finish()
 	H := vkit.Pick(6, 8)
-	r.Rule = fmt.Sprintf("history of %d revocations (event 3 revokes the tracked value of the second witness kind); older list [a..m], m up to H (covering all of the update's own events), x newer update [m2..H] with m2 in [a+1..m+1] (overlap of 0..m-a events) x list form {object, JSON-decoded with product, two decoded halves flattened}; the assembled update applied to witnesses at EVERY index a-1..H-1 in ascending and in descending order (one shared update object) and each alone on a fresh assembly; Update values used again (applied, then the next message decoded into the same value - JSON / CBOR - and applied to another witness at the same index); non-trivial = distinct (a, m, m2, form, order, witness); oracle: Prepend succeeds; non-revoked witness => Update succeeds and the witness verifies against accumulator H; witness revoked inside the window => ErrorRevoked and unchanged", H)
+	r.Rule = fmt.Sprintf("history of %d revocations (event 3 revokes the tracked value of the second witness kind); older list [a..m], m up to H (covering all of the update's own events), x newer update [m2..H] with m2 in [a+1..m+1] (overlap of 0..m-a events) x list form {object, JSON-decoded with product, two decoded halves flattened, the same two decoded list objects flattened anew for every assembly}; the assembled update applied to witnesses at EVERY index a-1..H-1 in ascending and in descending order (one shared update object) and each alone on a fresh assembly; Update values used again (applied, then the next message decoded into the same value - JSON / CBOR - and applied to another witness at the same index); non-trivial = distinct (a, m, m2, form, order, witness); oracle: Prepend succeeds; non-revoked witness => Update succeeds and the witness verifies against accumulator H; witness revoked inside the window => ErrorRevoked and unchanged", H)
 	rvInstallEnv(t, "C09asm", r.Seed)
 	sk, pk := rvKeys(32, 0)
 	var es []*big.Int
@@ -411,10 +412,11 @@ func TestVerifC09Assembled(t *testing.T) {
 	for a := 1; a <= H-1; a++ {
 		for m := a; m <= H; m++ { // m == H: the older list reaches up to the update's own last event
 			for m2 := a + 1; m2 <= m+1 && m2 <= H; m2++ {
-				for _, form := range []string{"object", "decoded+product", "flattened"} {
-					if form == "flattened" && m == a {
+				for _, form := range []string{"object", "decoded+product", "flattened", "flattened (the decoded lists used again for every assembly)"} {
+					if strings.HasPrefix(form, "flattened") && m == a {
 						continue
 					}
+					var kept []*EventList // the holder's decoded lists, flattened anew whenever an update is assembled
 					if _, mine := r.Next(); !mine {
 						continue
 					}
@@ -428,10 +430,19 @@ func TestVerifC09Assembled(t *testing.T) {
 							el = NewEventList(world.Window(a, m, 0).Events...)
 						case "decoded+product":
 							el = decode(a, m)
-						default:
+						case "flattened":
 							cut := (a + m) / 2
 							var err error
 							if el, err = FlattenEventLists([]*EventList{decode(cut+1, m), decode(a, cut)}); err != nil {
+								return nil, err
+							}
+						default:
+							if kept == nil {
+								cut := (a + m) / 2
+								kept = []*EventList{decode(a, cut), decode(cut+1, m)}
+							}
+							var err error
+							if el, err = FlattenEventLists([]*EventList{kept[1], kept[0]}); err != nil {
 								return nil, err
 							}
 						}
